@@ -110,7 +110,7 @@ def check_elements(part, zs):
             cv, vd = E.cov_radii(arr), E.vdw_radii(arr)
             nm, sy = E.element_names(arr), E.element_symbols(arr)
             part.trace()
-            if abs(cv[0] - row[2]) > 1e-6 or abs(vd[2] - row[3]) > 1e-6 or nm[0].lower() != name or sy[2] != sym or sy[1] != "H":
+            if not (abs(cv[0] - row[2]) <= 1e-6) or not (abs(vd[2] - row[3]) <= 1e-6) or nm[0].lower() != name or sy[2] != sym or sy[1] != "H":
                 part.fail("vectorised:%d" % z, "cov_radii/vdw_radii/element_names/element_symbols disagree with Element for Z=%d" % z, {"kind": "vector", "z": z})
         except Exception as ex:
             part.fail("vectorised-raise:%d" % z, "vectorised helpers raised %r for Z=%d" % (ex, z), {"kind": "vector", "z": z})
